@@ -1,6 +1,7 @@
 package main
 
 import (
+	"os"
 	"fmt"
 	"go/token"
 	"go/types"
@@ -440,7 +441,11 @@ func (w *World) ruleAlwaysWrites(r *Report, rule string) {
 		if !ok {
 			// the block-level walk joins paths: a helper's "handled" flag and what the
 			// helper wrote are correlated only path by path
-			if ok2, _ := w.pxAlwaysWrites(fn, aw, leaf); ok2 {
+			ok2, why2 := w.pxAlwaysWrites(fn, aw, leaf)
+			if os.Getenv("HLINT_AWDEBUG") != "" {
+				fmt.Fprintf(os.Stderr, "AW %s px=%v %s\n", fnName(fn), ok2, why2)
+			}
+			if ok2 {
 				ok = true
 				delete(why, fn)
 			}
